@@ -967,6 +967,12 @@ func mappedList(f *chk.Fn, g *chk.Graph, e ast.Expr, coll func(ast.Expr) bool, p
 }
 
 func collectedList(f *chk.Fn, g *chk.Graph, e ast.Expr, coll func(ast.Expr) bool, keep func(rs *ast.RangeStmt, positive bool) chk.Guard, proj func(rs *ast.RangeStmt) func(ast.Expr) bool) bool {
+	// a plain copy of the collected list (the result of an expanded helper handed over under another name)
+	if rid, isId := ast.Unparen(f.Resolve(e)).(*ast.Ident); isId {
+		if _, wasId := ast.Unparen(e).(*ast.Ident); wasId {
+			e = rid
+		}
+	}
 	id, ok := ast.Unparen(e).(*ast.Ident)
 	if !ok {
 		return false
@@ -1461,6 +1467,10 @@ func assignCommitsRule(p *chk.Prog, r *chk.Report) {
 // identifier declared in the function (not a parameter that is a pointer / map / slice being written through), or an
 // element / field of a value created in the function (a composite literal, make, new or append result held in a local).
 func pureCheckRule(p *chk.Prog, x *chk.R, fns [][3]string) {
+	pureCheckRuleMsg(p, x, fns, " changes state that outlives the call (a recorded sharing key, an allocation, a pool): a check that is also run for candidates that are not taken must not have effects")
+}
+
+func pureCheckRuleMsg(p *chk.Prog, x *chk.R, fns [][3]string, msg string) {
 	for _, fn := range fns {
 		f := p.LookupFunc(fn[0], fn[1], fn[2])
 		if f == nil && fn[2] == "sharingOK" {
@@ -1553,7 +1563,7 @@ func pureCheckRule(p *chk.Prog, x *chk.R, fns [][3]string) {
 		if bad != nil {
 			pos = bad.Pos()
 		}
-		x.Check(fn[2]+":no-store-outside-locals", pos, bad == nil, "", fn[2]+" changes state that outlives the call (a recorded sharing key, an allocation, a pool): a check that is also run for candidates that are not taken must not have effects")
+		x.Check(fn[2]+":no-store-outside-locals", pos, bad == nil, "", fn[2]+msg)
 	}
 }
 
@@ -2090,6 +2100,52 @@ func sharedConfigRule(p *chk.Prog, r *chk.Report) {
 			}
 			return throughShared(f2, e)
 		}
+		// (d) a copy of a configuration struct - or of bgp.SessionParameters, which carries pointers taken from the
+		// configuration (hold time, keepalive, connect time) - still shares what its pointer, map and slice fields refer
+		// to: a store through such a field changes the configuration itself
+		isCarrier := func(t types.Type) bool {
+			if isCfgType(t) {
+				return true
+			}
+			if pt, ok := t.(*types.Pointer); ok {
+				t = pt.Elem()
+			}
+			n, ok := t.(*types.Named)
+			return ok && n.Obj().Pkg() != nil && n.Obj().Pkg().Path() == chk.Module+"/internal/bgp" && n.Obj().Name() == "SessionParameters"
+		}
+		throughField := func(e ast.Expr, top ast.Node) bool {
+			for x := ast.Unparen(e); ; {
+				var inner ast.Expr
+				deref := false
+				switch v := x.(type) {
+				case *ast.StarExpr:
+					inner, deref = ast.Unparen(v.X), true
+				case *ast.SelectorExpr:
+					inner = ast.Unparen(v.X)
+					if t := f.Info().TypeOf(inner); t != nil {
+						_, deref = t.Underlying().(*types.Pointer)
+					}
+				case *ast.IndexExpr:
+					inner = ast.Unparen(v.X)
+					if t := f.Info().TypeOf(inner); t != nil {
+						switch t.Underlying().(type) {
+						case *types.Map, *types.Slice, *types.Pointer:
+							deref = true
+						}
+					}
+				default:
+					return false
+				}
+				if deref {
+					if sel, isSel := inner.(*ast.SelectorExpr); isSel {
+						if fld, isF := f.ObjOf(sel.Sel).(*types.Var); isF && fld.IsField() && isCarrier(f.Info().TypeOf(sel.X)) && !replacedByFresh(f, sel, top) {
+							return true
+						}
+					}
+				}
+				x = inner
+			}
+		}
 		ast.Inspect(f.Body, func(n ast.Node) bool {
 			switch st := n.(type) {
 			case *ast.AssignStmt:
@@ -2100,6 +2156,9 @@ func sharedConfigRule(p *chk.Prog, r *chk.Report) {
 					if through(f, l) {
 						nSites++
 						x.Fail("store@"+f.Name()+":"+types.ExprString(l), st.Pos(), "a store into a configuration value outside internal/config: the configuration is shared with the reconcilers' lock-free comparison (data race; the remembered configuration stops being equal to a fresh one)")
+					} else if throughField(l, st) {
+						nSites++
+						x.Fail("store-through-field@"+f.Name()+":"+types.ExprString(l), st.Pos(), "a store through a pointer, map or slice field of a (copied) configuration value or of the session parameters built from it: the copy shares that memory with the configuration the reconcilers remember (it stops being equal to a freshly parsed one: every later event reloads the configuration and resets the sessions)")
 					}
 				}
 			case *ast.IncDecStmt:
@@ -2153,3 +2212,741 @@ func sharedConfigRule(p *chk.Prog, r *chk.Report) {
 	x.Check("mutator-sites-found", 0, nSites >= 1, "", "no call of ipaddr.NewPrefix found (the rule's positive example): the allocator's address cursor moved - review")
 }
 
+// readoptBeforeExitRule (shared by C01, C03, C06): convergeBalancer never leaves a Service with a recorded status
+// behind without the allocator knowing its addresses: every return is reached only after c.ips.Assign(key, svc, <the
+// addresses parsed from the status>, ...) was called, or after clearServiceState(key, svc) dropped the record - whatever
+// else is wrong with the Service (a malformed request, a missing pool). A return that comes before both - an "early
+// validation" - is harmless while the controller runs (its allocator already holds the address) but a restarted
+// controller never learns the address and hands it to the next Service: two statuses record one address.
+// The one exit before both on the confirmed tree - cluster IPs whose family cannot be determined - is listed: the API
+// server does not admit such a Service.
+func readoptBeforeExitRule(p *chk.Prog, r *chk.Report) {
+	x := r.Rule("READOPT-EXIT", "B path", "in controller.convergeBalancer every return is dominated by the re-adoption call c.ips.Assign(key, svc, lbIPs, ...) or by clearServiceState(key, svc) (reviewed exception: the return behind a failed ipfamily.ForService(svc))", 8)
+	f := need(x, p, "controller", "controller", "convergeBalancer")
+	if f == nil {
+		return
+	}
+	g := f.Graph()
+	svc, key := isParam(f, "svc"), isParam(f, "key")
+	isAssign := f.ContainsPat("RECV.ips.Assign(K, S, ETC)", chk.H("K", key), chk.H("S", svc))
+	isClear := f.ContainsPat("RECV.clearServiceState(K, S)", chk.H("K", key), chk.H("S", svc))
+	exempt := g.GErrNil(false, "ipfamily.ForService(S)", chk.H("S", svc))
+	// the re-adoption is made under `len(lbIPs) != 0` and the record is dropped under `len(lbIPs) == 0`: the walk carries
+	// what is known about the emptiness of the held list
+	var lbIPs types.Object
+	for _, s := range g.FindPat("RECV.ips.Assign(K, S, IPS, ETC)", chk.H("K", key), chk.H("S", svc)) {
+		lbIPs = f.ObjOf(s.Node.(*ast.CallExpr).Args[2])
+	}
+	n := 0
+	for _, rt := range g.Returns() {
+		n++
+		if g.Dominated(rt, exempt) {
+			x.OK("converge:return-after-readopt-or-clear", rt.Pos(), "reviewed exception: the family of the cluster IPs cannot be determined")
+			continue
+		}
+		ok := false
+		if lbIPs != nil {
+			tr, rf := g.EmptinessTracker(f.IsObj(lbIPs))
+			w := (&chk.StateWalk{G: g, Init: chk.EmpUnknown, Transfer: tr, Refine: rf,
+				Stop: func(n ast.Node, _ int) bool { return isAssign(n) || isClear(n) },
+				Hit:  func(n ast.Node, _ int) bool { return n == rt.Top }}).Run()
+			ok = !w.Found
+		}
+		x.Check("converge:return-after-readopt-or-clear", rt.Pos(), ok, "", "convergeBalancer can return for a Service whose status records addresses before re-adopting them (Assign) and without clearing the record: after a restart the allocator does not know the address and gives it to another Service")
+	}
+	x.Check("converge:returns-found", f.Pos(), n >= 4, "", "unexpected shape")
+}
+
+// nodeNetworkRule (shared by C04, C10, C12): a node counts as network-unavailable only when a condition of type
+// NodeNetworkUnavailable has status True - not for an unknown status, not for a missing condition, not for a nil node.
+// Decided over IsNetworkUnavailable and the functions of its package it calls (a status lookup helper in whatever
+// shape: returning the status, a pointer to the condition, ...): (1) a true result is reached only behind a comparison
+// `<status> == ConditionTrue`; (2) that is the only comparison of a condition status in the closure (a test against
+// ConditionFalse or ConditionUnknown decides the unknown status the other way); (3) a condition's type is only ever
+// compared, with ==, with NodeNetworkUnavailable (directly or through a parameter that every call binds to it).
+func nodeNetworkRule(p *chk.Prog, r *chk.Report) {
+	x := r.Rule("NODE-NETWORK", "B path (truth table, necessary condition)", "nodes.IsNetworkUnavailable(n) is true only behind `<condition status> == ConditionTrue`; no other comparison of a condition status and no comparison of a condition type with anything but NodeNetworkUnavailable occurs in it or in the helpers of its package it calls", 2)
+	f := need(x, p, "internal/k8s/nodes", "", "IsNetworkUnavailable")
+	if f == nil {
+		return
+	}
+	// the closure inside the package
+	closure := []*chk.Fn{f}
+	seen := map[*chk.Fn]bool{f: true}
+	for i := 0; i < len(closure) && i < 6; i++ {
+		cf := closure[i]
+		chk.InspectNoLit(cf.Body, func(n ast.Node) bool {
+			if c, ok := n.(*ast.CallExpr); ok {
+				if fo, _ := cf.Callee(c).(*types.Func); fo != nil {
+					if callee := p.FnOf(fo); callee != nil && callee.Pkg == f.Pkg && callee.Body != nil && !seen[callee] {
+						seen[callee] = true
+						closure = append(closure, callee)
+					}
+				}
+			}
+			return true
+		})
+	}
+	typeNamed := func(fn *chk.Fn, e ast.Expr, name string) bool {
+		t := fn.Info().TypeOf(e)
+		return t != nil && strings.HasSuffix(t.String(), "k8s.io/api/core/v1."+name)
+	}
+	okStatus, okType, nStatus := true, true, 0
+	for _, cf := range closure {
+		cf := cf
+		ast.Inspect(cf.Body, func(n ast.Node) bool {
+			switch y := n.(type) {
+			case *ast.SwitchStmt:
+				if y.Tag != nil && (typeNamed(cf, y.Tag, "ConditionStatus") || typeNamed(cf, y.Tag, "NodeConditionType")) {
+					okStatus = false // a switch over the status / type is not decided
+				}
+			case *ast.BinaryExpr:
+				if y.Op != token.EQL && y.Op != token.NEQ {
+					return true
+				}
+				if typeNamed(cf, y.X, "ConditionStatus") || typeNamed(cf, y.Y, "ConditionStatus") {
+					nStatus++
+					isTrue := isObjNamed(cf, "k8s.io/api/core/v1.ConditionTrue")
+					if y.Op != token.EQL || !(isTrue(y.X) || isTrue(y.Y)) {
+						okStatus = false
+					}
+				}
+				if typeNamed(cf, y.X, "NodeConditionType") || typeNamed(cf, y.Y, "NodeConditionType") {
+					isNU := func(e ast.Expr) bool {
+						if isObjNamed(cf, "k8s.io/api/core/v1.NodeNetworkUnavailable")(e) {
+							return true
+						}
+						// a parameter that every call binds to the constant
+						id, isId := ast.Unparen(e).(*ast.Ident)
+						if !isId {
+							return false
+						}
+						for k := 0; ; k++ {
+							pv := cf.Param(k)
+							if pv == nil {
+								return false
+							}
+							if cf.ObjOf(id) != types.Object(pv) {
+								continue
+							}
+							sites := p.CallSites(cf.Name())
+							if len(sites) == 0 {
+								return false
+							}
+							for _, cs := range sites {
+								if k >= len(cs.Call.Args) || !isObjNamed(cs.Fn, "k8s.io/api/core/v1.NodeNetworkUnavailable")(cs.Call.Args[k]) {
+									return false
+								}
+							}
+							return true
+						}
+					}
+					if y.Op != token.EQL || !(isNU(y.X) || isNU(y.Y)) {
+						okType = false
+					}
+				}
+			}
+			return true
+		})
+	}
+	x.Check("IsNetworkUnavailable:status-compared-with-True-only", f.Pos(), okStatus && nStatus == 1, "", "the status of the condition is compared with something other than `== ConditionTrue` (or more than once, or through a switch): an unknown status (or a missing condition) can make the node count as network-unavailable")
+	x.Check("IsNetworkUnavailable:condition-type", f.Pos(), okType, "", "a condition's type is compared with something other than NodeNetworkUnavailable")
+	// a true result only behind that comparison
+	g := f.Graph()
+	stTrue := chk.GFunc(func(ft chk.Fact) bool {
+		be, ok := ast.Unparen(ft.E).(*ast.BinaryExpr)
+		if !ok || be.Op != token.EQL || !ft.Val {
+			return false
+		}
+		isTrue := isObjNamed(f, "k8s.io/api/core/v1.ConditionTrue")
+		return (isTrue(be.X) && typeNamed(f, be.Y, "ConditionStatus")) || (isTrue(be.Y) && typeNamed(f, be.X, "ConditionStatus"))
+	})
+	okTrue, n := true, 0
+	for _, rt := range g.Returns() {
+		res := retResults(rt)
+		if len(res) != 1 {
+			okTrue = false
+			continue
+		}
+		n++
+		switch {
+		case f.IsConstBool(res[0], false):
+		case f.IsConstBool(res[0], true):
+			okTrue = okTrue && g.Dominated(rt, stTrue)
+		default:
+			okTrue = okTrue && g.DominatedAssuming(rt, res[0], true, stTrue)
+		}
+	}
+	x.Check("IsNetworkUnavailable:true-only-behind-status-True", f.Pos(), okTrue && n >= 1, "", "IsNetworkUnavailable can answer true without the comparison `<status> == ConditionTrue` having succeeded (a nil node, a missing condition)")
+}
+
+// definedByOrNil: like definedBy, but through any number of definitions: every value the local can hold at its use
+// (reaching definitions, plain copies of locals followed) matches the pattern or is nil, and at least one matches - the
+// result of a "look up or fail" helper expanded in place (`pool, err := lookup(name)` with the error path leaving nil).
+func definedByOrNil(g *chk.Graph, pat string, checks ...chk.HoleCheck) func(ast.Expr) bool {
+	direct := definedBy(g, pat, checks...)
+	return func(e ast.Expr) bool {
+		if direct(e) {
+			return true
+		}
+		id, ok := ast.Unparen(e).(*ast.Ident)
+		if !ok {
+			return false
+		}
+		vals, ok := g.ValuesUnder(id, g.FactSite(id), func(*cfgBlock, int) bool { return false })
+		if !ok {
+			return false
+		}
+		n := 0
+		for _, v := range vals {
+			if g.Fn.IsNilLit(v) {
+				continue
+			}
+			if g.Fn.MatchWith(pat, v, checks...) == nil && !direct(v) {
+				return false
+			}
+			n++
+		}
+		return n >= 1
+	}
+}
+
+// annotationPrecedence: f answers with the value of the stable annotation whenever the Service carries it - present, not
+// merely non-empty: an empty stable annotation switches the feature off whatever a left-over deprecated one says - and
+// with the deprecated one (or nothing) only when the stable key is absent.
+func annotationPrecedence(x *chk.R, f *chk.Fn, key string, m, stable, dep func(ast.Expr) bool) {
+	g := f.Graph()
+	lookup := func(k func(ast.Expr) bool) func(ast.Expr) bool {
+		return func(e ast.Expr) bool {
+			e = ast.Unparen(e)
+			if f.MatchWith("M[K]", e, chk.H("M", m), chk.H("K", k)) != nil {
+				return true
+			}
+			id, ok := e.(*ast.Ident)
+			if !ok {
+				return false
+			}
+			rhs, idx := g.DefOf(id, g.FactSite(id))
+			return rhs != nil && idx == 0 && f.MatchWith("M[K]", rhs, chk.H("M", m), chk.H("K", k)) != nil
+		}
+	}
+	present := func(k func(ast.Expr) bool, v bool) chk.Guard {
+		return chk.GBool(v, func(e ast.Expr) bool {
+			id, ok := ast.Unparen(e).(*ast.Ident)
+			if !ok {
+				return false
+			}
+			rhs, idx := g.DefOf(id, g.FactSite(id))
+			return rhs != nil && idx == 1 && f.MatchWith("M[K]", rhs, chk.H("M", m), chk.H("K", k)) != nil
+		})
+	}
+	ok, n := true, 0
+	why := ""
+	for _, rt := range g.Returns() {
+		rs := rt.Node.(*ast.ReturnStmt)
+		if len(rs.Results) != 1 {
+			continue
+		}
+		n++
+		res := rs.Results[0]
+		switch {
+		case lookup(stable)(res):
+			if !g.Dominated(rt, present(stable, true)) {
+				ok, why = false, "the stable annotation's value is returned without its presence having been established (comma-ok)"
+			}
+		case lookup(dep)(res), f.IsConstString(res, ""):
+			if !g.Dominated(rt, present(stable, false)) {
+				ok, why = false, "the deprecated annotation (or nothing) is answered on a path where the stable annotation may be present (an empty stable annotation must win)"
+			}
+		default:
+			ok, why = false, "a result that is neither annotation's value"
+		}
+	}
+	x.Check(key, f.Pos(), ok && n > 0, "", "the stable annotation does not take precedence whenever it is present: "+why)
+}
+
+// familyOfRule (shared by C08, C02): the family of a network or address is the family of the address itself - IPv6
+// exactly when it has no 4-byte form. The length of a mask or of the byte slice says nothing: an IPv4-mapped notation
+// parses to an IPv4 network with a 16-byte mask.
+func familyOfRule(p *chk.Prog, r *chk.Report) {
+	x := r.Rule("FAMILY-OF", "B path (truth table)", "ipfamily.ForCIDR(c) and ipfamily.ForAddress(ip) answer IPv6 only behind <address>.To4() == nil and IPv4 only behind its negation, for the address c.IP / ip (or ForCIDR hands c.IP to ForAddress)", 2)
+	for _, t := range []struct {
+		name, pat string
+	}{{"ForCIDR", "C.IP.To4() == nil"}, {"ForAddress", "C.To4() == nil"}} {
+		f := need(x, p, "internal/ipfamily", "", t.name)
+		if f == nil {
+			continue
+		}
+		g := f.Graph()
+		arg := chk.H("C", isParamIdx(f, 0))
+		ok, n := true, 0
+		for _, rt := range g.Returns() {
+			res := retResults(rt)
+			if len(res) != 1 {
+				continue
+			}
+			n++
+			switch {
+			case t.name == "ForCIDR" && f.MatchWith("ForAddress(C.IP)", res[0], arg) != nil:
+			case isObjNamed(f, "internal/ipfamily.IPv6")(res[0]):
+				ok = ok && g.Dominated(rt, g.GPat(true, t.pat, arg))
+			case isObjNamed(f, "internal/ipfamily.IPv4")(res[0]):
+				ok = ok && g.Dominated(rt, g.GPat(false, t.pat, arg))
+			default:
+				ok = false
+			}
+		}
+		x.Check(t.name+":decided-by-the-address", f.Pos(), ok && n > 0, "", "the family is not decided by whether the address has a 4-byte form (To4() == nil): an IPv4 network written in IPv4-mapped notation carries a 16-byte mask and would count as IPv6, so the IPv4 node addresses are never compared with it")
+	}
+}
+
+// carriedIntoIteration lists the local variables read in `use` (an expression evaluated inside the body of rs) that are
+// declared outside the loop, assigned somewhere inside it, and not assigned on every path from the start of an
+// iteration to the use: on such a path the use sees what an earlier iteration left behind.
+func carriedIntoIteration(f *chk.Fn, g *chk.Graph, rs *ast.RangeStmt, use ast.Expr) []string {
+	_, body, _ := g.RangeBlocks(rs)
+	if body == nil {
+		return nil
+	}
+	top := g.FactSite(use).Top
+	var out []string
+	seen := map[types.Object]bool{}
+	ast.Inspect(use, func(n ast.Node) bool {
+		if _, isLit := n.(*ast.FuncLit); isLit {
+			return false
+		}
+		if kv, isKV := n.(*ast.KeyValueExpr); isKV {
+			ast.Inspect(kv.Value, func(m ast.Node) bool { return carriedVisit(f, g, rs, body, top, m, seen, &out) })
+			return false
+		}
+		return carriedVisit(f, g, rs, body, top, n, seen, &out)
+	})
+	sort.Strings(out)
+	return out
+}
+
+func carriedVisit(f *chk.Fn, g *chk.Graph, rs *ast.RangeStmt, body *cfgBlock, top ast.Node, n ast.Node, seen map[types.Object]bool, out *[]string) bool {
+	id, isId := n.(*ast.Ident)
+	if !isId {
+		return true
+	}
+	v, isVar := f.ObjOf(id).(*types.Var)
+	if !isVar || v.IsField() || seen[v] || v.Pkg() == nil || v.Parent() == v.Pkg().Scope() {
+		return true
+	}
+	seen[v] = true
+	if chk.Encloses(rs, identDecl(f, v)) {
+		return true // declared by or inside the loop: fresh in every iteration
+	}
+	defines := func(m ast.Node) bool {
+		switch d := m.(type) {
+		case *ast.AssignStmt:
+			for _, l := range d.Lhs {
+				if lid, ok := ast.Unparen(l).(*ast.Ident); ok && f.ObjOf(lid) == types.Object(v) {
+					return true
+				}
+			}
+		case *ast.ValueSpec:
+			for _, nm := range d.Names {
+				if f.ObjOf(nm) == types.Object(v) {
+					return true
+				}
+			}
+		}
+		return false
+	}
+	assignedInside := false
+	chk.InspectNoLit(rs.Body, func(m ast.Node) bool {
+		if defines(m) {
+			assignedInside = true
+		}
+		return !assignedInside
+	})
+	if !assignedInside {
+		return true // an input of the loop
+	}
+	w := (&chk.Walk{G: g, From: chk.Site{G: g, B: body, I: 0}, Inclusive: true, Stop: defines, Hit: func(m ast.Node) bool { return m == top }}).Run()
+	if w.Found {
+		*out = append(*out, v.Name())
+	}
+	return true
+}
+
+// identDecl: the identifier that declares v.
+func identDecl(f *chk.Fn, v *types.Var) ast.Node {
+	var decl ast.Node
+	ast.Inspect(f.Decl, func(n ast.Node) bool {
+		if id, ok := n.(*ast.Ident); ok && id.Pos() == v.Pos() {
+			decl = id
+		}
+		return decl == nil
+	})
+	return decl
+}
+
+// replacedByFresh: sel is `v.F` for a local struct value v, and every assignment to v.F in the function stores a
+// container made there (make, a literal, new, the address of a local), one of them on every path to the use: the copy
+// no longer shares that field with the value it was copied from.
+func replacedByFresh(f *chk.Fn, sel *ast.SelectorExpr, use ast.Node) bool {
+	id, isId := ast.Unparen(sel.X).(*ast.Ident)
+	if !isId {
+		return false
+	}
+	v, isVar := f.ObjOf(id).(*types.Var)
+	if !isVar || v.IsField() || v.Pos() < f.Body.Pos() || v.Pos() > f.Body.End() {
+		return false
+	}
+	if _, isStruct := v.Type().Underlying().(*types.Struct); !isStruct {
+		return false
+	}
+	fld := f.ObjOf(sel.Sel)
+	n, all := 0, true
+	freshAt := map[ast.Node]bool{}
+	ast.Inspect(f.Body, func(nd ast.Node) bool {
+		as, ok := nd.(*ast.AssignStmt)
+		if !ok || len(as.Lhs) != len(as.Rhs) {
+			return true
+		}
+		for i, l := range as.Lhs {
+			ls, isSel := ast.Unparen(l).(*ast.SelectorExpr)
+			if !isSel || f.ObjOf(ls.Sel) != fld {
+				continue
+			}
+			if lid, ok := ast.Unparen(ls.X).(*ast.Ident); !ok || f.ObjOf(lid) != types.Object(v) {
+				continue
+			}
+			n++
+			fresh := isFreshContainer(f, as.Rhs[i])
+			if u, isU := ast.Unparen(as.Rhs[i]).(*ast.UnaryExpr); isU && u.Op == token.AND {
+				switch y := ast.Unparen(u.X).(type) {
+				case *ast.CompositeLit:
+					fresh = true
+				case *ast.Ident:
+					if lv, isV := f.ObjOf(y).(*types.Var); isV && !lv.IsField() && lv.Pos() > f.Body.Pos() && lv.Pos() < f.Body.End() {
+						fresh = true
+					}
+				}
+			}
+			if c, isC := ast.Unparen(as.Rhs[i]).(*ast.CallExpr); isC {
+				if bid, isB := c.Fun.(*ast.Ident); isB && bid.Name == "new" {
+					fresh = true
+				}
+			}
+			if !fresh {
+				all = false
+			} else {
+				freshAt[as] = true
+			}
+		}
+		return true
+	})
+	if n == 0 || !all {
+		return false
+	}
+	g := f.Graph()
+	return !g.MustPass(chk.Site{}, func(m ast.Node) bool { return m == use }, false, func(m ast.Node) bool { return freshAt[m] }).Found
+}
+
+// ---- stores through what a function was handed (parameters, fetched values) -----------------------------------------
+
+// sharedStore is a store (assignment, ++/--, delete/clear, in-place sort, set mutator) whose target is reached, through
+// at least one pointer / map / slice step, from a value the function was handed.
+type sharedStore struct {
+	Node ast.Node
+	What string
+}
+
+func pointerLike(t types.Type, depth int) bool {
+	if t == nil || depth > 3 {
+		return false
+	}
+	switch u := t.Underlying().(type) {
+	case *types.Pointer, *types.Map, *types.Slice, *types.Chan, *types.Interface, *types.Signature:
+		return true
+	case *types.Struct:
+		for i := 0; i < u.NumFields(); i++ {
+			if pointerLike(u.Field(i).Type(), depth+1) {
+				return true
+			}
+		}
+	case *types.Array:
+		return pointerLike(u.Elem(), depth+1)
+	}
+	return false
+}
+
+// storesThroughHanded: flow-insensitive. The handed values are the pointer-like parameters (not the receiver) when
+// params is set, and the results of the calls that srcCall accepts. A local becomes handed-derived when it is assigned, ranged or
+// declared from an expression that carries one (selection, indexing, dereference, slicing, address, a literal or append
+// containing one, a conversion, a method of one with a pointer-like result other than DeepCopy/Clone, a call given one
+// with a pointer-like result). A struct copy held in a local may be stored into field by field; anything behind one of
+// its pointers, maps or slices is still the handed value.
+func storesThroughHanded(f *chk.Fn, params bool, srcCall func(*ast.CallExpr) bool) []sharedStore {
+	return storesThroughHandedSel(f, func(*types.Var) bool { return params }, srcCall)
+}
+
+func storesThroughHandedParams(f *chk.Fn, pick func(*types.Var) bool) []sharedStore {
+	return storesThroughHandedSel(f, pick, nil)
+}
+
+func storesThroughHandedSel(f *chk.Fn, pick func(*types.Var) bool, srcCall func(*ast.CallExpr) bool) []sharedStore {
+	info := f.Info()
+	tainted := map[types.Object]bool{}
+	for i := 0; ; i++ {
+		pv := f.Param(i)
+		if pv == nil {
+			break
+		}
+		if pick(pv) && pointerLike(pv.Type(), 0) {
+			tainted[pv] = true
+		}
+	}
+	var carries func(e ast.Expr) bool
+	carries = func(e ast.Expr) bool {
+		switch v := ast.Unparen(e).(type) {
+		case *ast.Ident:
+			return tainted[f.ObjOf(v)]
+		case *ast.SelectorExpr:
+			if id, isId := ast.Unparen(v.X).(*ast.Ident); isId {
+				if _, isPkg := info.Uses[id].(*types.PkgName); isPkg {
+					return false
+				}
+			}
+			return carries(v.X)
+		case *ast.IndexExpr:
+			return carries(v.X)
+		case *ast.StarExpr:
+			return carries(v.X)
+		case *ast.SliceExpr:
+			return carries(v.X)
+		case *ast.UnaryExpr:
+			return v.Op == token.AND && carries(v.X)
+		case *ast.TypeAssertExpr:
+			return carries(v.X)
+		case *ast.CompositeLit:
+			for _, el := range v.Elts {
+				if kv, isKV := el.(*ast.KeyValueExpr); isKV {
+					el = kv.Value
+				}
+				if pointerLike(info.TypeOf(el), 0) && carries(el) {
+					return true
+				}
+			}
+		case *ast.CallExpr:
+			if srcCall != nil && srcCall(v) {
+				return true
+			}
+			if tv, ok := info.Types[v.Fun]; ok && tv.IsType() {
+				return len(v.Args) == 1 && carries(v.Args[0])
+			}
+			if !pointerLike(info.TypeOf(v), 0) {
+				return false
+			}
+			if sel, isSel := ast.Unparen(v.Fun).(*ast.SelectorExpr); isSel {
+				if _, isM := info.Selections[sel]; isM {
+					switch sel.Sel.Name {
+					case "DeepCopy", "Clone", "Copy", "String", "Error":
+						return false
+					}
+					if carries(sel.X) {
+						return true
+					}
+				}
+			}
+			for _, a := range v.Args {
+				if pointerLike(info.TypeOf(a), 0) && carries(a) {
+					return true
+				}
+			}
+		}
+		return false
+	}
+	taint := func(l ast.Expr) bool {
+		id, isId := ast.Unparen(l).(*ast.Ident)
+		if !isId || id.Name == "_" {
+			return false
+		}
+		o := f.ObjOf(id)
+		if v, isVar := o.(*types.Var); !isVar || v.IsField() || tainted[o] || !pointerLike(v.Type(), 0) {
+			return false
+		}
+		tainted[o] = true
+		return true
+	}
+	for changed := true; changed; {
+		changed = false
+		chk.InspectNoLit(f.Body, func(n ast.Node) bool {
+			switch st := n.(type) {
+			case *ast.AssignStmt:
+				if len(st.Lhs) == len(st.Rhs) {
+					for i, l := range st.Lhs {
+						if carries(st.Rhs[i]) && taint(l) {
+							changed = true
+						}
+					}
+				} else if len(st.Rhs) == 1 && carries(st.Rhs[0]) {
+					for _, l := range st.Lhs {
+						if taint(l) {
+							changed = true
+						}
+					}
+				}
+			case *ast.RangeStmt:
+				if carries(st.X) {
+					for _, l := range []ast.Expr{st.Key, st.Value} {
+						if l != nil && taint(l) {
+							changed = true
+						}
+					}
+				}
+			case *ast.ValueSpec:
+				for i, nm := range st.Names {
+					if i < len(st.Values) && carries(st.Values[i]) && taint(nm) {
+						changed = true
+					}
+				}
+			}
+			return true
+		})
+	}
+	// a store goes through the handed value when the path to the root takes a pointer / map / slice step
+	through := func(e ast.Expr) bool {
+		deref := false
+		for x := ast.Unparen(e); ; {
+			switch v := x.(type) {
+			case *ast.StarExpr:
+				deref = true
+				x = ast.Unparen(v.X)
+				continue
+			case *ast.SelectorExpr:
+				if t := info.TypeOf(v.X); t != nil {
+					if _, isP := t.Underlying().(*types.Pointer); isP {
+						deref = true
+					}
+				}
+				x = ast.Unparen(v.X)
+				continue
+			case *ast.IndexExpr:
+				if t := info.TypeOf(v.X); t != nil {
+					switch t.Underlying().(type) {
+					case *types.Map, *types.Slice, *types.Pointer:
+						deref = true
+					}
+				}
+				x = ast.Unparen(v.X)
+				continue
+			case *ast.Ident:
+				return deref && tainted[f.ObjOf(v)]
+			case *ast.CallExpr:
+				return carries(v)
+			}
+			return false
+		}
+	}
+	var out []sharedStore
+	chk.InspectNoLit(f.Body, func(n ast.Node) bool {
+		switch st := n.(type) {
+		case *ast.AssignStmt:
+			for _, l := range st.Lhs {
+				if _, isId := ast.Unparen(l).(*ast.Ident); !isId && through(l) {
+					out = append(out, sharedStore{st, types.ExprString(l) + " = ..."})
+				}
+			}
+		case *ast.IncDecStmt:
+			if _, isId := ast.Unparen(st.X).(*ast.Ident); !isId && through(st.X) {
+				out = append(out, sharedStore{st, types.ExprString(st.X) + st.Tok.String()})
+			}
+		case *ast.CallExpr:
+			if id, isId := ast.Unparen(st.Fun).(*ast.Ident); isId && (id.Name == "delete" || id.Name == "clear") {
+				if _, isB := info.Uses[id].(*types.Builtin); isB && len(st.Args) > 0 && carries(st.Args[0]) {
+					out = append(out, sharedStore{st, id.Name + "(" + types.ExprString(st.Args[0]) + ", ...)"})
+				}
+				return true
+			}
+			fo, _ := f.Callee(st).(*types.Func)
+			if fo == nil || fo.Pkg() == nil {
+				return true
+			}
+			switch pk := fo.Pkg().Path(); {
+			case pk == "k8s.io/apimachinery/pkg/util/sets" && (fo.Name() == "Insert" || fo.Name() == "Delete" || fo.Name() == "Clear" || fo.Name() == "PopAny"):
+				if sel, isSel := ast.Unparen(st.Fun).(*ast.SelectorExpr); isSel && carries(sel.X) {
+					out = append(out, sharedStore{st, types.ExprString(sel.X) + "." + fo.Name() + "(...)"})
+				}
+			case (pk == "sort" && (fo.Name() == "Slice" || fo.Name() == "SliceStable" || fo.Name() == "Strings" || fo.Name() == "Ints" || fo.Name() == "Sort" || fo.Name() == "Stable")) ||
+				(pk == "slices" && (strings.HasPrefix(fo.Name(), "Sort") || fo.Name() == "Reverse")):
+				if len(st.Args) > 0 && carries(st.Args[0]) {
+					out = append(out, sharedStore{st, fo.Name() + "(" + types.ExprString(st.Args[0]) + ") in place"})
+				}
+			}
+		}
+		return true
+	})
+	return out
+}
+
+// firstPresentKeyRule: f(m, keys...) answers with m[k] for the first k of keys that is present in m (comma-ok), and with
+// "" when none is: inside the one loop over keys every return hands back the looked-up value behind its ok, no key is
+// skipped otherwise (no break), and the only return after the loop is "".
+func firstPresentKeyRule(x *chk.R, f *chk.Fn, key string) {
+	g := f.Graph()
+	m, keys := isParamIdx(f, 0), isParamIdx(f, 1)
+	loops := f.RangeLoops(keys)
+	ok := len(loops) == 1
+	if ok {
+		rs := loops[0]
+		k := rangeVal(f, rs)
+		ok = !loopHasBreak(g, rs)
+		for _, rt := range g.Returns() {
+			res := retResults(rt)
+			if len(res) != 1 {
+				ok = false
+				continue
+			}
+			if chk.InBody(rs, rt.Node) {
+				id, isId := ast.Unparen(res[0]).(*ast.Ident)
+				good := false
+				if isId {
+					rhs, idx := g.DefOf(id, g.FactSite(id))
+					good = rhs != nil && idx == 0 && f.MatchWith("M[K]", rhs, chk.H("M", m), chk.H("K", k)) != nil &&
+						g.Dominated(rt, chk.GBool(true, func(e ast.Expr) bool {
+							oid, isO := ast.Unparen(e).(*ast.Ident)
+							if !isO {
+								return false
+							}
+							r2, i2 := g.DefOf(oid, g.FactSite(oid))
+							return r2 == rhs && i2 == 1
+						}))
+				}
+				ok = ok && good
+			} else {
+				ok = ok && f.IsConstString(res[0], "")
+			}
+		}
+		// a key that is present is not passed over: its ok edge always returns, and the lookup is made for every key
+		present := chk.GBool(true, func(e ast.Expr) bool {
+			oid, isO := ast.Unparen(e).(*ast.Ident)
+			if !isO {
+				return false
+			}
+			r2, i2 := g.DefOf(oid, g.FactSite(oid))
+			return r2 != nil && i2 == 1 && f.MatchWith("M[K]", r2, chk.H("M", m), chk.H("K", k)) != nil
+		})
+		es := g.EdgesImplying(present)
+		ok = ok && len(es) >= 1
+		for _, e := range es {
+			if g.BranchAlways(e, func(n ast.Node) bool { _, isRet := n.(*ast.ReturnStmt); return isRet }).Found {
+				ok = false
+			}
+		}
+		_, body, _ := g.RangeBlocks(rs)
+		if body != nil {
+			isLookup := f.ContainsPat("M[K]", chk.H("M", m), chk.H("K", k))
+			w := (&chk.Walk{G: g, From: chk.Site{G: g, B: body, I: 0}, Inclusive: true, Stop: isLookup, Hit: func(n ast.Node) bool {
+				_, isBr := n.(*ast.BranchStmt)
+				return isBr
+			}}).Run()
+			ok = ok && !w.Found
+		}
+	}
+	x.Check(key, f.Pos(), ok, "", "the lookup does not answer with the first key that is present (the stable annotation must win whenever the Service carries it)")
+}
